@@ -4,7 +4,7 @@
     (Tokens.v); [parse E] = Python's expression parser followed by parsing.py's type_from_ast in
     the scope [E] of type definitions. *)
 From Coq Require Import String List NArith Bool.
-From V.C31 Require Import Tokens GenPrinter Model Spec ProofsRT.
+From V.C31 Require Import Tokens GenPrinter Model Spec ProofsRT ProofsNames.
 Import ListNotations.
 Open Scope string_scope.
 
@@ -31,3 +31,32 @@ Proof. split; [intros []; reflexivity | split; vm_compute; reflexivity]. Qed.
 Theorem python_reads_printed_type : forall t, fo t = true -> py_parse (print t) = Some (ast_of t).
 Proof. exact python_reads. Qed.
 Print Assumptions python_reads_printed_type.
+
+(* one printer run over a rank-1 type (at most one quantifier, at the top; bound variables may also
+   occur free, i.e. outside any binder) whose display names are identifier-like: every occurrence of
+   a variable is printed with the same name, and two different variables (bound by index,
+   existential by id) never share a printed name — also when their display names are equal *)
+Theorem distinct_vars_distinct_names : forall t, rank1 t = true -> tnames_ok t = true ->
+  forall v1 s1 v2 s2, In (v1, s1) (tags (print t)) -> In (v2, s2) (tags (print t)) ->
+  (v1 = v2 <-> s1 = s2).
+Proof. exact distinct_names. Qed.
+Print Assumptions distinct_vars_distinct_names.
+
+(* non-trivial instance: two parameters and a free bound variable and two existentials all called T *)
+Definition tf : ty :=
+  TFun [("T", PKType); ("T", PKType); ("n", PKConst CKNat false)]
+       [TBound "x" 0; TApp "array" [TBound "T" 1; TBound "n" 2]; TExist "T" 5; TBound "T" 7] [(true, false)]
+       (TTuple [TExist "T" 5; TExist "T" 6; TFun [] [TBound "T" 7] [] (TBound "T" 0)]).
+Definition tf_printed : list string :=
+  ["forall"; "T"; ","; "T'1"; ","; "n"; ":"; "nat"; "."; "("; "T"; "@owned"; ","; "array"; "["; "T'1"; ",";
+   "n"; "]"; ","; "?T'2"; ","; "T'3"; ")"; "->"; "("; "?T'2"; ","; "?T'4"; ","; "("; "T'3"; "->"; "T"; ")"; ")"].
+Example names_hyps_satisfiable :
+  rank1 tf = true /\ tnames_ok tf = true /\ map tok_text (print tf) = tf_printed.
+Proof. repeat split; vm_compute; reflexivity. Qed.
+
+(* the identifier hypothesis is needed: a display name that already contains the index separator
+   can collide with a generated name (guppy.type_var("T'1") is accepted by the API) *)
+Example names_need_identifier_display_names :
+  let t := TTuple [TExist "T" 0; TExist "T" 1; TExist "T'1" 2] in
+  rank1 t = true /\ In (VExist 1, "?T'1") (tags (print t)) /\ In (VExist 2, "?T'1") (tags (print t)).
+Proof. vm_compute. intuition. Qed.
